@@ -247,6 +247,7 @@ func witnessByUnification(g *sx.T) *sx.T {
 		conj = []*sx.T{body}
 	}
 	env := map[string]*sx.T{}
+	uncertain := false // the witness was taken from one alternative of a case distinction: keep the existential as the other disjunct
 	for _, c := range conj {
 		if c.Head() != "=" || len(c.L) != 3 {
 			continue
@@ -261,6 +262,9 @@ func witnessByUnification(g *sx.T) *sx.T {
 			return []*sx.T{t}
 		}
 		done := false
+		if len(leaves(c.L[1])) > 1 || len(leaves(c.L[2])) > 1 {
+			uncertain = true
+		}
 		for _, a := range leaves(c.L[1]) {
 			for _, b := range leaves(c.L[2]) {
 				if done || a.IsAtom() || b.IsAtom() || a.Head() != b.Head() || !strings.HasPrefix(a.Head(), "ev_") || len(a.L) != len(b.L) {
@@ -278,6 +282,9 @@ func witnessByUnification(g *sx.T) *sx.T {
 		if _, ok := env[v]; !ok {
 			return nil
 		}
+	}
+	if uncertain {
+		return sx.Or(sx.Subst(body, env), g)
 	}
 	return sx.Subst(body, env)
 }
